@@ -175,7 +175,15 @@ pub fn h_mapped_input() {
         vcover!(k0 == 1 && k0 < len, "mapped: empty match between two tokens");
         let lo = if k0 >= 1 { spans[k0 - 1].end } else { 0 };
         let hi = if k0 < len { spans[k0].start } else { eoi_pos };
-        vassert_finding!(sp.start == sp.end && lo <= sp.start && sp.start <= hi, "C07/mapped.empty-match-gets-an-empty-span-between-its-neighbours");
+        if k0 >= len {
+            // at the end of the input (after the last token, or an empty input): the library returns the
+            // zero-width end-of-input span, which lies between the last token and the end of input
+            vcover!(k0 == 1, "mapped: empty match at the end of input after a token");
+            vassert!(sp.start == sp.end && lo <= sp.start && sp.start <= hi, "C07/mapped.empty-match-at-the-end-of-input-gets-an-empty-span-after-the-last-token");
+            vassert!(sp.start == eoi_pos, "C10/mapped.position-at-the-end-of-input-is-the-end-of-input-span");
+        } else {
+            vassert_finding!(sp.start == sp.end && lo <= sp.start && sp.start <= hi, "C07/mapped.empty-match-gets-an-empty-span-between-its-neighbours");
+        }
     }
     let _ = c;
 }
@@ -237,6 +245,10 @@ pub fn h_iter_input() {
     } else {
         vcover!(true, "iter input: end");
         vassert!(t.is_none() && <II as Input<'_>>::cursor_location(&c) == i, "C10/iter_input.none-at-the-end-without-moving");
+        // a match that consumed nothing at the end of the input: the zero-width end-of-input span
+        let sp = unsafe { <II as Input<'_>>::span(&mut cache, &start..&c) };
+        vcover!(k0 == 1, "iter input: empty match at the end after a token");
+        vassert!(sp.start == sp.end && sp.start == eoi_pos, "C07/iter_input.empty-match-at-the-end-of-input-gets-the-empty-end-of-input-span");
     }
 }
 
